@@ -58,6 +58,51 @@ Definition kind_const (k : nat) : str :=
 Definition is_manifest_kind (k : nat) : bool :=
   existsb (str_eqb (kind_const k)) IsManifest_cases.
 
+(* which media types have a subject field that the store reads (manifestutil.Subject), which
+   predecessors registry.Referrers looks at, which media types have successors at all
+   (content.Successors): the case lists of the three media-type switches *)
+Definition kind_has_subject (k : nat) : bool := existsb (str_eqb (kind_const k)) c09_subject_cases.
+Definition kind_is_referrer_type (k : nat) : bool := existsb (str_eqb (kind_const k)) c09_referrers_cases.
+Definition kind_has_successors (k : nat) : bool := existsb (str_eqb (kind_const k)) c09_successors_cases.
+(* the model has ONE subject function for the subject walk of gcIndex, heldBySurvivor (both
+   manifestutil.Subject) and the referrers of Delete (registry.Referrers): adequate iff the two
+   switches accept the same media types; every manifest media type has successors *)
+Definition subject_tables_agree : bool :=
+  forallb (fun k => Bool.eqb (kind_has_subject k) (kind_is_referrer_type k)) [0; 1; 2; 3; 4; 5] &&
+  forallb (fun k => Bool.eqb (is_manifest_kind k) (kind_has_successors k)) [0; 1; 2; 3; 4; 5] &&
+  forallb (fun k => implb (kind_has_subject k) (is_manifest_kind k)) [0; 1; 2; 3; 4; 5].
+
+(* Lock discipline of Store (sync.RWMutex), read off the regenerated call sequences: Delete and
+   GC take the write lock for their whole body (first call Lock, deferred Unlock), every other
+   operation the read lock: Delete and GC are atomic with respect to every other operation, so
+   the histories of the store are sequences of the model's steps as far as Delete and GC are
+   concerned. *)
+Definition takes_lock (w : bool) (l : list str) : bool :=
+  match l with
+  | [a; c] => if w then str_eqb a (b "s.sync.Lock") && str_eqb c (b "s.sync.Unlock")
+              else str_eqb a (b "s.sync.RLock") && str_eqb c (b "s.sync.RUnlock")
+  | _ => false
+  end.
+Definition lock_discipline : bool :=
+  takes_lock true c09_lock_Delete && takes_lock true c09_lock_GC &&
+  forallb (takes_lock false)
+    [c09_lock_Push; c09_lock_Tag; c09_lock_Untag; c09_lock_Predecessors; c09_lock_Resolve;
+     c09_lock_Exists; c09_lock_Fetch; c09_lock_SaveIndex; c09_lock_Tags].
+
+(* Order of effects, read off the call sequences that the translator extracts from the Go
+   functions (c09_calls_gc / c09_calls_delete in Generated/GC09.v): does a call to [a] come
+   before the first call to [c]? *)
+Fixpoint seen_before (a c : str) (l : list str) (seen : bool) : bool :=
+  match l with
+  | [] => false
+  | x :: r => if str_eqb x c then seen else seen_before a c r (seen || str_eqb x a)
+  end.
+(* GC: index.json is written before the first blob is removed; the context is tested before
+   a blob is removed; delete(): index.json is written before the blob is unlinked *)
+Definition gc_saves_before_sweep : bool := seen_before (b "s.saveIndex") (b "os.Remove") c09_calls_gc false.
+Definition gc_tests_ctx_before_remove : bool := seen_before (b "isContextDone") (b "os.Remove") c09_calls_gc false.
+Definition delete_saves_before_unlink : bool := seen_before (b "s.saveIndex") (b "s.storage.Delete") c09_calls_delete false.
+
 (* RStale t: the pre-repair resolver.Memory.Tag left reference t in the tag set of the
    descriptor it was moved away from; (RStale t, n) records "t is still in tags[n]".
    Never created by the repaired code (cfg_fixed). *)
@@ -95,7 +140,7 @@ Record state := {
 Definition init : state :=
   {| blobs := []; idx := []; gnodes := []; strays := []; autogc := true |}.
 
-Inductive res := Ok | ENotFound | EExists | EHang.
+Inductive res := Ok | ENotFound | EExists | EHang | ECanceled | EOther.
 
 (* fixF1/F3/F4/F13: the repairs of DESIGN section 6; fixStale: resolver.Memory.Tag forgets a
    moved reference in the old tag set; fixLeaf: Delete does not queue dangling leaves that
@@ -359,6 +404,11 @@ Definition digested (ix : list (ref * nat)) : list nat :=
    repair of index persistence (property C08) may keep every old digest reference whose
    descriptor is still in the rebuilt graph ([kl] = true).  The harness probes the store and
    passes what it sees; the theorems hold for both. *)
+(* graph.Exists on the rebuilt graph: its nodes, and the leaf descriptors that IndexAll records
+   by reference without their content being stored (successors of a node, or a tagged root) *)
+Definition gexists (bl tn g : list nat) (n : nat) : bool :=
+  memb n g || (leaf_absent bl n && (memb n tn || existsb (fun p => memb n (succ p)) g)).
+
 Definition gc_index (c : cfg) (kl : bool) (ords : nat -> list nat) (st : state)
   : option (list (ref * nat) * list nat) :=
   let ix := idx st in
@@ -369,7 +419,7 @@ Definition gc_index (c : cfg) (kl : bool) (ords : nat -> list nat) (st : state)
   | Some (g, kept) =>
     Some (filter (fun e => match fst e with RTag _ => true | _ => false end) ix
           ++ map (fun n => (RDig n, n))
-                 (dedup tn ++ kept ++ (if kl then filter (fun n => memb n g) (digested ix) else [])), g)
+                 (dedup tn ++ kept ++ (if kl then filter (gexists (blobs st) tn g) (digested ix) else [])), g)
   end.
 
 (* the sweep of blobs/: known algorithm directory, valid digest name, not in the graph *)
@@ -384,6 +434,30 @@ Definition gc (c : cfg) (kl : bool) (ords : nat -> list nat) (st : state) : stat
         gnodes := dedup g;
         strays := filter sweep_stray (strays st);
         autogc := autogc st |}, Ok)
+  end.
+
+(* ---------- GC whose context is cancelled during the sweep ----------
+   The sweep walks blobs/<alg>/ in directory order and tests the context before every entry.
+   [order] = the entries in that order, [k] = the number of entries handled before the
+   context was found done.  The index has been rebuilt (and saved) before the sweep. *)
+Inductive sentry := SBlob (n : nat) | SStray (id : nat).
+
+Definition swept_blob (n : nat) (l : list sentry) : bool :=
+  existsb (fun e => match e with SBlob m => Nat.eqb m n | SStray _ => false end) l.
+Definition swept_stray (id : nat) (l : list sentry) : bool :=
+  existsb (fun e => match e with SStray m => Nat.eqb m id | SBlob _ => false end) l.
+
+Definition gc_cancel (c : cfg) (kl : bool) (ords : nat -> list nat) (order : list sentry) (k : nat)
+           (st : state) : state * res :=
+  match gc_index c kl ords st with
+  | None => (st, EHang)
+  | Some (ix, g) =>
+    let handled := firstn k order in
+    ({| blobs := filter (fun n => memb n g || negb (swept_blob n handled)) (blobs st);
+        idx := ix;
+        gnodes := dedup g;
+        strays := filter (fun s => sweep_stray s || negb (swept_stray (s_id s) handled)) (strays st);
+        autogc := autogc st |}, ECanceled)
   end.
 
 (* ---------- histories ---------- *)
@@ -417,6 +491,115 @@ Definition step (c : cfg) (kl : bool) (st : state) (o : op) : state * res :=
     ({| blobs := blobs st; idx := ix;
         gnodes := dedup (flat_map (clo c (blobs st)) (map snd ix));
         strays := strays st; autogc := true |}, Ok)
+  end.
+
+(* ---------- persistence: index.json, AutoSaveIndex, SaveIndex, reload ----------
+   [disk] = the entries of index.json as saveIndex writes them: one entry per tag, one
+   digest-only entry per descriptor that has a by-digest reference and no tag.
+   loadIndex gives every entry its by-digest reference (and its tag). *)
+Definition save_form (ix : list (ref * nat)) : list (ref * nat) :=
+  filter (fun e => match fst e with
+                   | RTag _ => true
+                   | RDig _ => negb (memb (snd e) (tagged_nodes ix))
+                   | RStale _ => false end) ix.
+
+Definition load_form (d : list (ref * nat)) : list (ref * nat) :=
+  flat_map (fun e => match fst e with
+                     | RTag t => [(RDig (snd e), snd e); (RTag t, snd e)]
+                     | RDig _ => [(RDig (snd e), snd e)]
+                     | RStale _ => [] end) d.
+
+Record pstate := { mem : state; disk : list (ref * nat); autosave : bool }.
+Definition pinit : pstate := {| mem := init; disk := []; autosave := true |}.
+
+Inductive pop :=
+| PO (o : op)                       (* an operation of the store *)
+| PSave                             (* Store.SaveIndex *)
+| PAutoSave (b : bool)              (* Store.AutoSaveIndex = b *)
+| PGCCancel (early : bool) (order : list sentry) (k : nat)
+| PPushBad (n : nat)                (* Push of a manifest-typed blob that does not decode *)
+| PDeleteAlt (n : nat)
+  (* Delete of a layer/config with the descriptor Resolve(<digest>) returns for a blob
+     (media type application/octet-stream): the file and every reference to the digest go
+     (storage and references are keyed by digest), the graph - keyed by the full descriptor -
+     does not know that descriptor: no referrers, no danglings, the node stays behind as a
+     stale graph node until GC or a reload.  Theorems that need [wf] do not cover the states
+     after this operation (see C09_persist_histories). *)
+| PGCBlocked (order : list sentry) (k : nat).
+  (* GC whose sweep fails at entry [k] of [order] (os.Remove fails: a non-empty directory
+     with a digest name): the entries before it were handled, the error is returned *)
+  (* GC with a context that is cancelled: before the index is rebuilt ([early]) or in the
+     sweep after [k] entries of [order] *)
+
+Definition ref_code (r : ref) : nat * nat :=
+  match r with RTag t => (0, t) | RDig n => (1, n) | RStale t => (2, t) end.
+Definition entry_eqb (a b : ref * nat) : bool := ref_eqb (fst a) (fst b) && Nat.eqb (snd a) (snd b).
+Fixpoint entries_eqb (a b : list (ref * nat)) : bool :=
+  match a, b with
+  | [], [] => true
+  | x :: a', y :: b' => entry_eqb x y && entries_eqb a' b'
+  | _, _ => false
+  end.
+
+Definition is_ok (r : res) : bool := match r with Ok => true | _ => false end.
+
+(* the store wrote index.json iff [b] *)
+Definition saved (b : bool) (p : pstate) (m : state) : pstate :=
+  {| mem := m; disk := if b then save_form (idx m) else disk p; autosave := autosave p |}.
+
+(* oci.New on the directory: the reference map and the graph come from index.json *)
+Definition reload (c : cfg) (m : state) (d : list (ref * nat)) : state :=
+  let ix := load_form d in
+  {| blobs := blobs m; idx := ix;
+     gnodes := dedup (flat_map (clo c (blobs m)) (map snd ix));
+     strays := strays m; autogc := true |}.
+
+Definition pstep (c : cfg) (kl : bool) (p : pstate) (o : pop) : pstate * res :=
+  match o with
+  | PO (OPush n) =>
+    let '(m, r) := push (mem p) n in (saved (autosave p && manifest n && is_ok r) p m, r)
+  | PO (OTag n t) =>
+    let '(m, r) := tag c (mem p) n t in (saved (autosave p && is_ok r) p m, r)
+  | PO (OUntag t) =>
+    let '(m, r) := untag (mem p) t in (saved (autosave p && is_ok r) p m, r)
+  | PO (ODelete n) =>
+    (* delete() saves when it removed or added a reference *)
+    let '(m, r) := delete c ord_id (mem p) n in
+    (saved (autosave p && negb (entries_eqb (idx m) (idx (mem p))) &&
+            (delete_saves_before_unlink || is_ok r)) p m, r)
+  | PO OGC =>
+    let '(m, r) := gc c kl (fun _ => candidates (idx (mem p))) (mem p) in
+    (saved (autosave p && is_ok r) p m, r)
+  | PO OReopen =>
+    ({| mem := reload c (mem p) (disk p); disk := disk p; autosave := true |}, Ok)
+  | PO OForeign =>
+    let d := filter (fun e => match fst e with RTag _ => true | _ => false end) (disk p) in
+    ({| mem := reload c (mem p) d; disk := d; autosave := true |}, Ok)
+  | PO o' =>
+    let '(m, r) := step c kl (mem p) o' in (saved false p m, r)
+  | PSave => (saved true p (mem p), Ok)
+  | PAutoSave b => ({| mem := mem p; disk := disk p; autosave := b |}, Ok)
+  (* storage.Push succeeds, graph.Index fails, the blob is removed again: nothing changes *)
+  | PPushBad _ => (p, EOther)
+  | PDeleteAlt n =>
+    let m0 := mem p in
+    let ix := filter (fun e => negb (Nat.eqb (snd e) n)) (idx m0) in
+    let m := {| blobs := removeb n (blobs m0); idx := ix; gnodes := gnodes m0;
+                strays := strays m0; autogc := autogc m0 |} in
+    (saved (autosave p && negb (entries_eqb ix (idx m0)) &&
+            (delete_saves_before_unlink || memb n (blobs m0))) p m,
+     if memb n (blobs m0) then Ok else ENotFound)
+  | PGCBlocked order k =>
+    let '(m, r) := gc_cancel c kl (fun _ => candidates (idx (mem p))) order k (mem p) in
+    (saved (autosave p && gc_saves_before_sweep && match r with ECanceled => true | _ => false end) p m,
+     match r with ECanceled => EOther | _ => r end)
+  | PGCCancel true _ _ => (p, ECanceled)
+  | PGCCancel false order k =>
+    let '(m, r) := gc_cancel c kl (fun _ => candidates (idx (mem p))) order k (mem p) in
+    (* a sweep that can be interrupted only exists if the context is tested in it; the index
+       written before the sweep is on disk when it is interrupted *)
+    (saved (autosave p && gc_saves_before_sweep && gc_tests_ctx_before_remove &&
+            match r with ECanceled => true | _ => false end) p m, r)
   end.
 
 End Model.
